@@ -282,8 +282,8 @@ class PwlCall(AbstractCall):
     return utils_shim.canon_monotonicity(layer.monotonicity)
 
   def invariant(self, layer):
-    if layer.input_keypoints_type != 'fixed':
-      raise tfc.NoContract('learned keypoints: the monotone lemma is proved for fixed keypoints only')
+    # learned interior keypoints: same invariant; the contract then rests on C05 (keypoints ordered for any
+    # logits, call == hat form through them, hat form monotone / bounded for ANY ordered keypoints)
     k = layer.kernel
     if layer.is_cyclic:
       raise tfc.NoContract('cyclic calibrators are not used by the composed models')
@@ -527,7 +527,8 @@ def feature_configs(cf, feats):
                 pwl_calibration_num_keypoints=len(f.get('keypoints', [0.0, 1.0, 2.0])), default_value=f.get('default'),
                 pwl_calibration_convexity=f.get('convexity', 'none'),
                 pwl_calibration_always_monotonic=f.get('always_monotonic', False),
-                pwl_calibration_clamp_min=f.get('clamp_min', False), pwl_calibration_clamp_max=f.get('clamp_max', False))
+                pwl_calibration_clamp_min=f.get('clamp_min', False), pwl_calibration_clamp_max=f.get('clamp_max', False),
+                pwl_calibration_input_keypoints_type=f.get('keypoints_type', 'fixed'))
       if f.get('unimodality'):
         kw['unimodality'] = f['unimodality']
       if f.get('trust'):
@@ -846,6 +847,8 @@ class LayerContractCase(Case):
         for nm, f in ac.post(layer, x, y):
           cl.append(('%s[%s](%d,%d):%s' % (ac.cls, layer.name, a, b, nm), f))
       return cl
+    if isinstance(ac, PwlCall) and layer.input_keypoints_type != 'fixed':
+      return [('cited:C05-learned-keypoint-lemmas[%s]' % layer.name, E.TRUE)]
     if isinstance(ac, PwlCall):
       x = tfc.sym([2, 1], 'x')
     else:
@@ -895,6 +898,8 @@ def model_specs(tier):
                                                                    output_min=0.0, output_max=2.0, output_initialization=[0.0, 1.0, 2.0])))
   specs.append(dict(kind='lattice', features=[A, Bd], model=dict(parameterization='kronecker_factored', num_terms=2, output_min=0.0,
                                                                    output_max=1.0, output_initialization=[0.0, 1.0])))
+  specs.append(dict(kind='lattice', features=[dict(A, keypoints_type='learned_interior'), Bd],
+                    model=dict(output_min=0.0, output_max=1.0, output_initialization=[0.0, 1.0])))
   # monotone + convex calibrator feeding a lattice (the calibrator bound clauses are not proved: F-C04a)
   specs.append(dict(kind='lattice', features=[NUM('a', 'increasing', convexity='convex'), N],
                     model=dict(output_min=1.0, output_max=2.0, output_initialization=[1.0, 2.0])))
